@@ -67,6 +67,10 @@ func main() {
 		listKinds()
 		return
 	}
+	if job == "canon" {
+		runCanon(*kind)
+		return
+	}
 	f, ok := jobs[job]
 	if !ok {
 		die("unknown job %s", job)
